@@ -680,6 +680,7 @@ def rule_completion_spares_core(repo: Repo, rep, rule: str = "R1.11") -> None:
             if node is None:
                 raise AnalysisError(f"{rule}: the completion assignment of {fn.qualname} is not in its CFG")
             spared = False
+            partial = None
             for g, pol in guards(cfg, node.id, dom):
                 if g.kind != "test" or pol is None:
                     continue
@@ -695,12 +696,25 @@ def rule_completion_spares_core(repo: Repo, rep, rule: str = "R1.11") -> None:
                         txt += " " + " ".join(norm(r.value) for r in own_nodes(rc.methods[hc.func.attr].node) if isinstance(r, ast.Return) and r.value is not None)
                     if pj is False and "core_package_name" in txt and (".startswith(" in txt or "==" in txt):
                         spared = True
+                        # ... and the test really covers the whole namespace: the core package itself (the exception aliases are imported
+                        # from its root) as well as its sub-modules
+                        from sa.feval import Unknown as _Unk, evaluate as _ev
+
+                        mvars = [x.id for x in ast.walk(cji) if isinstance(x, ast.Name) and x.id not in ("self",)]
+                        if not any(isinstance(x, ast.Call) and isinstance(x.func, ast.Attribute) and x.func.attr in rc.methods for x in ast.walk(cji)) and len(set(mvars)) == 1:
+                            for val, what in (("shared.core", "the core package itself"), ("shared.core.exceptions", "a sub-module of the core package")):
+                                try:
+                                    if not _ev(cji, {"self.core_package_name": "shared.core", mvars[0]: val}):
+                                        spared = False
+                                        partial = what
+                                except _Unk:
+                                    pass
             sub = f"{fn.module.relpath}:{fn.qualname} `{norm(st)[:60]}`"
             if spared:
-                rep.ok(rule, sub, "the completion is skipped for modules in the core package namespace", fn.loc(st))
+                rep.ok(rule, sub, "the completion is skipped for modules in the core package namespace (the package itself and its sub-modules)", fn.loc(st))
             else:
-                rep.violation(rule, sub, f"{fn.fq}|completion-hits-core",
-                              "a module path that starts with the output package's non-root segments is prefixed with the root package even when it belongs to "
+                rep.violation(rule, sub, f"{fn.fq}|completion-hits-core" + ("|partial" if partial else ""),
+                              (f"the core test in front of the completion does not hold for {partial}: " if partial else "") + "a module path that starts with the output package's non-root segments is prefixed with the root package even when it belongs to "
                               "the core package: for output `acme.shared` with the top-level core `shared.core` the client imports `.core.…` "
                               "(ModuleNotFoundError: No module named 'acme.shared.core')", fn.loc(st))
     rep.count(f"{rule}:completion_sites", n)
